@@ -1796,7 +1796,7 @@ def main(argv: List[str]) -> int:
         "determinism": {"rerun_other_worker_count": det_checked, "fresh_interpreter_other_hashseed": fresh_checked, "mismatches": det_mismatch},
         "real_vs_stub": {
             "real": ["lsprotocol.converters/_hooks/types/validators (current working tree)", "attrs", "cattrs", "typing", "CPython threads"],
-            "simulated": ["choice of which thread runs at each pre-emption point", "threading.Lock/RLock created by lsprotocol (none on the pinned tree)"],
+            "simulated": ["choice of which thread runs at each pre-emption point", "threading.Lock/RLock/Event/Condition created by lsprotocol (none on the pinned tree)", "interrupts (MemoryError/RecursionError/KeyboardInterrupt) delivered at a seeded pre-emption point inside get_converter", "garbage collection of dropped converters (address reuse)", "time.time/monotonic between operations"],
             "stub": [],
         },
         "battery": {"structure_inputs_fixed": N_BASE_STRUCT, "structure_inputs_from_testdata_plugin": hm_start() - N_BASE_STRUCT, "hook_matrix_inputs": len(battery.STRUCT) - hm_start(), "hook_matrix": hm_info, "hook_matrix_note": hm_note,
